@@ -143,9 +143,38 @@ class CoefV:
         self.interp, self.decreasing = interp, decreasing
 
 
+NROWS = sp.Symbol("NVOL_FIT", positive=True, integer=True)       # rows of the design matrix: the number of sampled volumes
+
+
 class VanderV:
     def __init__(self, x, ncols, increasing=False):
         self.x, self.ncols, self.increasing = x, ncols, increasing
+
+    def sym_getattr(self, ev, name, node, mod):
+        from .sym import LibV, Tup
+        if name == "dtype":
+            return LibV("numpy.float64")
+        if name == "shape":
+            return Tup([NROWS, as_sym(self.ncols)], "tuple")
+        raise ev.err(f"attribute {name} of a Vandermonde matrix", node, mod)
+
+
+def default_or_smaller_cutoff(rc, ncols) -> bool:
+    """numpy.linalg.lstsq(a, b, rcond): None (and -1) mean machine precision times max(M, N); a cut-off is harmless when it is at most that for every admissible
+    shape (M >= N >= 2 rows / columns): a number <= 2 eps, or c * max(M, N) / c * M / c * N ... with c <= eps.  Anything larger drops singular directions the
+    default solve keeps (the ln V Vandermonde matrix is nearly singular at orders 4-5)."""
+    if rc is None:
+        return True
+    EPS = sp.Rational(1, 2 ** 52)
+    r = as_sym(rc)
+    if r.is_number:
+        return bool(r <= 2 * EPS)
+    big = sp.Max(NROWS, as_sym(ncols))
+    for ref in (big, NROWS):
+        q = sp.simplify(r / ref)
+        if q.is_number:
+            return bool(q <= EPS)
+    return False
 
 
 class LstsqResiduals:
@@ -270,6 +299,28 @@ def intrinsics(reg: Registry):
         it = reg.new(kind="lsq", x=as_sym(a[0]), y=as_sym(a[1]), call_style="poly", opts={"ncols": as_sym(deg) + 1, "rcond": k.get("rcond")})
         return CoefV(it)
 
+    def finfo(ev, a, k):
+        from .sym import Obj, LibV
+        t = a[0] if a else None
+        if not (isinstance(t, LibV) and t.name in ("numpy.float64", "builtins.float", "numpy.double", "numpy.float_")):
+            raise AnalysisError(f"numpy.finfo of {t!r}")
+        return Obj("ext:numpy.finfo", {"eps": sp.Rational(1, 2 ** 52), "tiny": sp.Rational(1, 2 ** 1022), "resolution": sp.Rational(1, 10 ** 15),
+                                       "smallest_normal": sp.Rational(1, 2 ** 1022), "epsneg": sp.Rational(1, 2 ** 53)})
+
+    def max_(ev, a, k):
+        from .sym import Tup
+        from .sym import LIB
+        try:
+            items = ev.iterate(a[0], None, None) if len(a) == 1 else list(a)
+            vals = [as_sym(i) for i in items]
+        except AnalysisError:
+            return LIB["max"](ev, a, k, None, None)
+        if k:
+            return LIB["max"](ev, a, k, None, None)
+        if all(v.is_number for v in vals):
+            return max(vals)
+        return sp.Max(*vals)
+
     def flip(ev, a, k):
         ax = k.get("axis", a[1] if len(a) > 1 else None)
         return FLIP(as_sym(a[0]))
@@ -332,7 +383,7 @@ def intrinsics(reg: Registry):
         "scipy.interpolate.CubicSpline": ppoly("CubicSpline"),
         "scipy.interpolate.lagrange": lagrange, "scipy.interpolate.KroghInterpolator": krogh,
         "interp.derivative_at": krogh_derivative, "numpy.polyder": polyder, "numpy.polyval": polyval,
-        "numpy.poly1d": poly1d, "numpy.vander": vander, "numpy.linalg.lstsq": lstsq, "numpy.polyfit": polyfit,
+        "numpy.poly1d": poly1d, "numpy.vander": vander, "numpy.linalg.lstsq": lstsq, "numpy.polyfit": polyfit, "numpy.finfo": finfo, "builtins.max": max_,
         "lstsqres.sum": lambda ev, a, k: sp.Symbol("LSTSQ_MISFIT", nonnegative=True), "lstsqres.size": lambda ev, a, k: a[0].sym_len(),
         "numpy.flip": flip, "numpy.sort": sort_, "numpy.argsort": argsort_, "numpy.ceil": ceil, "numpy.floor": floor, "math.ceil": ceil, "math.floor": floor, "builtins.int": int_,
     }
